@@ -7,6 +7,7 @@ import (
 	"encoding/json"
 	"errors"
 	"fmt"
+	"io"
 	"log/slog"
 	"net"
 	"net/http"
@@ -73,6 +74,8 @@ type Case struct {
 	// Mounted (panic site "handler"): the handler hands its c.Writer() and request to a second router without Recovery,
 	// whose handler makes the progress and panics; the panic crosses both routers up to the Recovery of the first
 	Mounted bool `json:"mounted,omitempty"`
+	// RFWriter: the underlying writer implements io.ReaderFrom (as net/http's does), so the recorder hands sources over to it
+	RFWriter bool `json:"rf_writer,omitempty"`
 }
 
 var ctxStates = []string{"", "", "", "canceled", "deadline", "canceled-in-mw"}
@@ -176,6 +179,47 @@ func (w *recW) WriteHeader(c int)           { w.codes = append(w.codes, c) }
 func (w *recW) Write(b []byte) (int, error) { return w.body.Write(b) }
 func (w *recW) Flush()                      { w.flushes++ }
 
+// recWRF is recW with the io.ReaderFrom fast path; like net/http it sends the implicit 200 with the first bytes.
+type recWRF struct{ *recW }
+
+func (w recWRF) ReadFrom(r io.Reader) (n int64, err error) {
+	buf := make([]byte, 64)
+	for {
+		k, rerr := r.Read(buf)
+		if k > 0 {
+			final := false
+			for _, code := range w.codes {
+				final = final || code < 100 || code > 199 || code == 101
+			}
+			if !final {
+				w.codes = append(w.codes, http.StatusOK)
+			}
+			w.body.Write(buf[:k])
+			n += int64(k)
+		}
+		if rerr == io.EOF {
+			return n, nil
+		}
+		if rerr != nil {
+			return n, rerr
+		}
+	}
+}
+
+// panicSrc delivers "partial" and panics with the case's value when it is read again.
+type panicSrc struct {
+	value string
+	reads int
+}
+
+func (s *panicSrc) Read(b []byte) (int, error) {
+	if s.reads++; s.reads == 1 {
+		return copy(b, "partial"), nil
+	}
+	raise(s.value)
+	return 0, io.EOF
+}
+
 var sensitive = []string{"Authorization", "Proxy-Authorization", "Cookie", "Set-Cookie", "X-CSRF-Token", "X-Vault-Token"}
 
 func checkCase(c *Case) (err error) {
@@ -191,6 +235,10 @@ func checkCase(c *Case) (err error) {
 		case "body":
 			ctx.Writer().WriteHeader(http.StatusAccepted)
 			_, _ = ctx.Writer().Write([]byte("partial"))
+		case "readfrom-panic":
+			// the response is started by the first bytes of a source that panics when read again: the panic of the case is
+			// raised from inside ReadFrom, after "partial" went out
+			_, _ = ctx.Writer().ReadFrom(&panicSrc{value: c.Value})
 		case "switching":
 			// 101 is a final header: the response is started, although no body byte follows
 			ctx.Writer().WriteHeader(http.StatusSwitchingProtocols)
@@ -355,7 +403,11 @@ func checkCase(c *Case) (err error) {
 	var escaped any
 	func() {
 		defer func() { escaped = recover() }()
-		f.ServeHTTP(w, req)
+		var under http.ResponseWriter = w
+		if c.RFWriter {
+			under = recWRF{w}
+		}
+		f.ServeHTTP(under, req)
 	}()
 	if raised != 1 {
 		return fmt.Errorf("%sthe panic site was reached %d times", desc, raised)
@@ -377,7 +429,7 @@ func checkCase(c *Case) (err error) {
 			final = code
 		}
 	}
-	started := c.Progress == "header" || c.Progress == "body" || c.Progress == "switching"
+	started := c.Progress == "header" || c.Progress == "body" || c.Progress == "switching" || c.Progress == "readfrom-panic"
 	if c.Progress == "flush" && !abort {
 		// started by a flush: exactly the implicit 200, nothing appended
 		if len(w.codes) != 1 || w.codes[0] != http.StatusOK || w.body.Len() != 0 {
@@ -395,6 +447,9 @@ func checkCase(c *Case) (err error) {
 		wantCode := http.StatusAccepted
 		if c.Progress == "switching" {
 			wantCode = http.StatusSwitchingProtocols
+		}
+		if c.Progress == "readfrom-panic" {
+			wantCode, wantBody = http.StatusOK, "partial" // the implicit header that goes with the first bytes
 		}
 		if final != wantCode || w.body.String() != wantBody || len(w.h["Content-Type"]) != 0 {
 			return fmt.Errorf("%sthe response had been started (%d, %q) and must be left untouched: status codes %v body %q Content-Type %q", desc, wantCode, wantBody, w.codes, w.body.String(), w.h["Content-Type"])
@@ -495,7 +550,7 @@ func genCase(t *rapid.T) *Case {
 	c := &Case{
 		Kind:     gen.Pick(t, []string{"route", "route", "route-ts", "noroute", "nomethod", "options"}, "kind"),
 		Value:    gen.Pick(t, values, "value"),
-		Progress: gen.Pick(t, []string{"none", "none", "informational", "header", "body", "flush", "switching"}, "progress"),
+		Progress: gen.Pick(t, []string{"none", "none", "informational", "header", "body", "flush", "switching", "readfrom-panic"}, "progress"),
 		Where:    "handler",
 	}
 	if c.Kind == "route" || c.Kind == "route-ts" {
@@ -512,6 +567,7 @@ func genCase(t *rapid.T) *Case {
 	c.LogLevel = gen.Pick(t, []string{"", "", "", "error", "off"}, "loglevel")
 	c.LongTarget = gen.Pick(t, []int{0, 0, 0, 0, 1000, 4090, 5000, 70000}, "longtarget")
 	c.Mounted = c.Where == "handler" && gen.Chance(t, 1, 4, "mounted")
+	c.RFWriter = gen.Chance(t, 1, 2, "rfwriter")
 	n := gen.IntR(t, 0, 6, "nheaders")
 	for i := 0; i < n; i++ {
 		tok := fmt.Sprintf("tok%dZ%dq", i, gen.IntR(t, 100000, 999999, "tok"))
@@ -561,7 +617,7 @@ func TestPanics(t *testing.T) {
 func TestExhaustive(t *testing.T) {
 	hs := []Header{{Name: "Authorization", Value: "tokAAA111q", Secret: true}, {Name: "Cookie", Value: "tokBBB222q", Secret: true}, {Name: "Accept", Value: "tokCCC333q"}}
 	for _, v := range values {
-		for _, p := range []string{"none", "informational", "header", "body", "flush", "switching"} {
+		for _, p := range []string{"none", "informational", "header", "body", "flush", "switching", "readfrom-panic"} {
 			for _, kw := range [][2]string{{"route", "handler"}, {"route", "inner-mw-before"}, {"route", "inner-mw-after"}, {"route", "updates-body"}, {"route", "view-body"}, {"route-ts", "handler"}, {"route-ts", "inner-mw-before"}, {"route-ts", "inner-mw-after"}, {"noroute", "handler"}, {"nomethod", "handler"}, {"options", "handler"}, {"noroute", "updates-body"}} {
 				for cut := 0; cut <= 3; cut++ {
 					if kw[1] != "updates-body" && cut > 0 {
